@@ -242,10 +242,13 @@ def run_large(spec, col):
         if i < 2**40:
             # inverse walks alleles linearly: only feasible where the top allele is moderate
             if max(g) < 200000:
-                inv = J.index_as_genotype_alleles(i, ploidy)
+                try:
+                    inv = J.index_as_genotype_alleles(i, ploidy)
+                except Exception:  # noqa: BLE001 - raising on a valid index is a violation
+                    inv = None
                 col.count("large_inverse")
                 if inv is None or [int(x) for x in inv] != g:
-                    col.violation("inverse-index-wrong", "large: index %d ploidy %d gave %s want %s" % (i, ploidy, None if inv is None else inv.tolist(), g),
+                    col.violation("inverse-index-wrong", "large: index %d ploidy %d gave %s want %s" % (i, ploidy, None if inv is None else list(inv), g),
                                   {"kind": "inverse", "index": i, "ploidy": ploidy})
         got = int(J.comb_with_replacement(na, ploidy))
         col.count("coef_checked")
@@ -397,13 +400,20 @@ def run_high(spec, col, tier):
         g = unrank(i, ploidy)
         col.case("H%d:%d:%d" % (ploidy, na, i), nontrivial=True)
         col.count("high_ploidy_roundtrips")
-        idx = int(J.genotype_alleles_as_index(np.array(g, dtype=np.int64)))
+        try:
+            idx = int(J.genotype_alleles_as_index(np.array(g, dtype=np.int64)))
+        except Exception as ex:  # noqa: BLE001 - a kernel that raises on a valid genotype is a violation, not a harness failure
+            idx = repr(ex)
         if idx != i:
-            col.violation("index-wrong-at-high-ploidy", "ploidy %d alleles %d: genotype with allele counts %s has index %d want %d" % (ploidy, na, [g.count(a) for a in range(na)], idx, i),
+            col.violation("index-wrong-at-high-ploidy", "ploidy %d alleles %d: genotype with allele counts %s has index %s want %d" % (ploidy, na, [g.count(a) for a in range(na)], idx, i),
                           {"kind": "index", "genotype": g})
-        inv = J.index_as_genotype_alleles(i, ploidy)
-        if inv is None or [int(x) for x in inv] != g:
-            col.violation("index-wrong-at-high-ploidy", "ploidy %d alleles %d: index %d decodes wrongly" % (ploidy, na, i), {"kind": "inverse", "index": i, "ploidy": ploidy})
+        try:
+            inv = J.index_as_genotype_alleles(i, ploidy)
+            inv = None if inv is None else [int(x) for x in inv]
+        except Exception as ex:  # noqa: BLE001
+            inv = repr(ex)
+        if inv != g:
+            col.violation("index-wrong-at-high-ploidy", "ploidy %d alleles %d: index %d decodes to %s" % (ploidy, na, i, "a wrong genotype" if isinstance(inv, list) else inv), {"kind": "inverse", "index": i, "ploidy": ploidy})
         if i + 1 < n:
             w = np.array(g, dtype=np.int64)
             J.increment_genotype(w)
